@@ -1,8 +1,225 @@
-(* C12 -- AVC record, sample, NALU (stub; theorems follow) *)
-From Verif Require Import Lib.Base Lib.Sx Lib.Bitfield Model.Avc.
+(* C12 -- AVC configuration records, samples and NAL units round-trip in ISO layout.
+   Property theorems only; every proof is `exact <lemma>` or a short composition.
+
+   Model: Model/Avc.v (transcribed from avc/avc.go after the fixes 44286ef reserved bits and
+   cd951da sample length check).  Vocabulary:
+     nalu = (nal_ref_idc, nal_unit_type, payload);  nalu_marshal / nalu_unmarshal
+     sample_marshal lsm1 ns / sample_unmarshal lsm1 have data    AVCSample with lengthSizeMinusOne = lsm1;
+                     [have] = the NALUs already in the receiver; result (NALUs afterwards, Ok tt | Err code)
+     rec_marshal r / rec_unmarshal st data                      AVCDecoderConfigurationRecord; [st] = the receiver before
+     spec_nalu_bytes, spec_record, spec_sample                   independent ISO/IEC 14496-10 7.3.1 and 14496-15
+                     5.2.4.1.1 / 5.3.4.2 writers given as (value, width) bit-field tables (Model/Avc.v); parameter
+                     sets and NAL units are opaque byte strings there
+     split_nalu b    the (ref, type, payload) reading of NAL unit bytes b, forbidden bit dropped *)
+From Verif Require Import Lib.Base Lib.Sx Lib.Bitfield Model.Avc Proofs.AacBits Proofs.Avc.
+From Verif Require Import Gen.Gen_avc.
 Open Scope N_scope.
 
-Theorem c12_stub : nalu_unmarshal [] = Err 1.
+(* NAL units, all 256 header bytes b and any payload: the reader takes nal_ref_idc from bits
+   6..5 and nal_unit_type from bits 4..0; re-marshalling clears exactly the forbidden_zero_bit,
+   so the encoding is reproduced (is canonical) iff that bit is 0.  The empty string is refused. *)
+Theorem c12_nalu b d :
+  b < 256 ->
+  nalu_unmarshal (b :: d) = Ok (mk_nalu ((b / 32) mod 4) (b mod 32) d) /\
+  nalu_marshal (mk_nalu ((b / 32) mod 4) (b mod 32) d) = (b mod 128) :: d /\
+  (nalu_marshal (mk_nalu ((b / 32) mod 4) (b mod 32) d) = b :: d <-> b < 128).
+Proof.
+  intros H. split; [reflexivity|].
+  assert (E : nalu_marshal (mk_nalu ((b / 32) mod 4) (b mod 32) d) = (b mod 128) :: d).
+  { rewrite nalu_marshal_eq. cbn [nref ntype ndata]. rewrite reenc_byte by exact H. reflexivity. }
+  split; [exact E|]. rewrite E. split.
+  - intros Q. inversion Q as [Q']. pose proof (N.mod_upper_bound b 128). lia.
+  - intros Q. rewrite N.mod_small by exact Q. reflexivity.
+Qed.
+
+Theorem c12_nalu_empty : nalu_unmarshal [] = Err 1.
 Proof. reflexivity. Qed.
 
-Print Assumptions c12_stub.
+(* every NAL unit value (ref < 4, type < 32, any payload) round-trips, and its bytes are the ISO
+   14496-10 7.3.1 layout forbidden_zero_bit(1)=0, nal_ref_idc(2), nal_unit_type(5), payload *)
+Theorem c12_nalu_rt n :
+  nref n < 4 -> ntype n < 32 ->
+  nalu_unmarshal (nalu_marshal n) = Ok n /\ nalu_marshal n = spec_nalu_bytes n.
+Proof.
+  intros Hr Ht. split; [apply nalu_rt; split; assumption|]. symmetry. apply spec_nalu_is_marshal. split; assumption.
+Qed.
+
+(* Samples: for each NAL length size 1..4 (lsm1 = 0..3) and every list of NAL units whose
+   size 1 + |payload| is below 256^(lsm1+1): the marshalled sample is the ISO 5.3.4.2 layout
+   (big-endian NALUnitLength of lsm1+1 bytes before each unit) and unmarshalling it appends
+   exactly those units to the receiver's list (fresh receiver: have = []). *)
+Theorem c12_sample_rt lsm1 ns have :
+  lsm1 < 4 ->
+  Forall (fun n => (nref n < 4 /\ ntype n < 32) /\ 1 + lenN (ndata n) < 256 ^ (lsm1 + 1)) ns ->
+  sample_marshal lsm1 ns = spec_sample lsm1 (map spec_nalu_bytes ns) /\
+  sample_unmarshal lsm1 have (sample_marshal lsm1 ns) = (have ++ ns, Ok tt).
+Proof.
+  intros Hl Hns. split; [exact (sample_marshal_spec lsm1 ns Hl Hns)|exact (sample_rt lsm1 ns have Hl Hns)].
+Qed.
+
+(* a conformant sample written by the independent writer (units non-empty, shorter than
+   256^(lsm1+1)) is read back unit by unit *)
+Theorem c12_sample_iso_read lsm1 nbs have :
+  lsm1 < 4 -> Forall (fun nb => nb <> [] /\ lenN nb < 256 ^ (lsm1 + 1)) nbs ->
+  sample_unmarshal lsm1 have (spec_sample lsm1 nbs) = (have ++ map split_nalu nbs, Ok tt).
+Proof.
+  intros Hl Hn. unfold sample_unmarshal. replace (u8 lsm1) with lsm1 by (unfold u8; lia).
+  rewrite (sample_read_spec lsm1 nbs Hl Hn) by lia. rewrite rev_involutive. reflexivity.
+Qed.
+
+(* ... and a canonical sample (every unit non-empty, forbidden_zero_bit 0, shorter than 256^(lsm1+1))
+   is reproduced by marshalling what it unmarshals to *)
+Theorem c12_sample_canonical_reenc lsm1 (nbs : list bytes) :
+  lsm1 < 4 -> Forall (fun nb => exists x t, nb = x :: t /\ x < 128 /\ lenN nb < 256 ^ (lsm1 + 1)) nbs ->
+  sample_unmarshal lsm1 [] (spec_sample lsm1 nbs) = (map split_nalu nbs, Ok tt) /\
+  sample_marshal lsm1 (map split_nalu nbs) = spec_sample lsm1 nbs.
+Proof.
+  intros Hl F. split; [|exact (sample_canonical_reenc lsm1 nbs Hl F)].
+  unfold sample_unmarshal. replace (u8 lsm1) with lsm1 by (unfold u8; lia).
+  rewrite sample_read_spec; [reflexivity|exact Hl| |lia].
+  eapply Forall_impl; [|exact F]. intros nb (x & t & -> & _ & H). split; [discriminate|exact H].
+Qed.
+
+(* NALU.Size is the number of marshalled bytes *)
+Theorem c12_nalu_size n : lenN (nalu_marshal n) = nalu_size n.
+Proof. exact (nalu_size_marshal n). Qed.
+
+(* Configuration records: profile, compatibility, level (and version) any byte, NAL length
+   size 1..4, up to 31 SPS and 255 PPS, each of 1..65535 bytes (1 + |payload|).
+   Layout: the marshalled bytes are, byte for byte, the ISO/IEC 14496-15 5.2.4.1.1 record
+   written by the independent writer, reserved bits '111111' and '111' included. *)
+Theorem c12_iso_layout r :
+  r_ver r < 256 -> r_prof r < 256 -> r_compat r < 256 -> r_level r < 256 -> r_lsm1 r < 4 ->
+  countN (r_sps r) <= 31 -> countN (r_pps r) <= 255 ->
+  Forall (fun n => (nref n < 4 /\ ntype n < 32) /\ 1 + lenN (ndata n) <= 65535) (r_sps r) ->
+  Forall (fun n => (nref n < 4 /\ ntype n < 32) /\ 1 + lenN (ndata n) <= 65535) (r_pps r) ->
+  rec_marshal r = spec_record (r_ver r) (r_prof r) (r_compat r) (r_level r) (r_lsm1 r)
+                              (map spec_nalu_bytes (r_sps r)) (map spec_nalu_bytes (r_pps r)).
+Proof. intros. apply rec_marshal_spec; try assumption; lia. Qed.
+
+(* the first six bytes explicitly: version, profile, compatibility, level, 0xfc|lsm1, 0xe0|numSPS *)
+Theorem c12_iso_layout_head ver prof compat level lsm1 (sps pps : list bytes) :
+  ver < 256 -> prof < 256 -> compat < 256 -> level < 256 -> lsm1 < 4 -> countN sps <= 31 -> countN pps <= 255 ->
+  spec_record ver prof compat level lsm1 sps pps =
+  [ver; prof; compat; level; 252 + lsm1; 224 + countN sps] ++ spec_sets sps ++ [countN pps] ++ spec_sets pps.
+Proof. intros. apply spec_record_bytes; try assumption; lia. Qed.
+
+(* Round trip, on a receiver in ANY state [st] and with ANY bytes [ext] after the record: the
+   scalar fields are overwritten and the parameter sets are APPENDED to the receiver's lists
+   (c12_unmarshal_appends); on a fresh receiver (rec0 = NewAVCDecoderConfigurationRecord())
+   the result is the record itself (c12_record_rt). *)
+Theorem c12_unmarshal_appends st r ext :
+  r_ver r < 256 -> r_prof r < 256 -> r_compat r < 256 -> r_level r < 256 -> r_lsm1 r < 4 ->
+  countN (r_sps r) <= 31 -> countN (r_pps r) <= 255 ->
+  Forall (fun n => (nref n < 4 /\ ntype n < 32) /\ 1 + lenN (ndata n) <= 65535) (r_sps r) ->
+  Forall (fun n => (nref n < 4 /\ ntype n < 32) /\ 1 + lenN (ndata n) <= 65535) (r_pps r) ->
+  rec_unmarshal st (rec_marshal r ++ ext) =
+  (mk_rec (r_ver r) (r_prof r) (r_compat r) (r_level r) (r_lsm1 r) (r_sps st ++ r_sps r) (r_pps st ++ r_pps r), Ok tt).
+Proof. intros. apply rec_rt; try assumption; lia. Qed.
+
+Theorem c12_record_rt r :
+  r_ver r < 256 -> r_prof r < 256 -> r_compat r < 256 -> r_level r < 256 -> r_lsm1 r < 4 ->
+  countN (r_sps r) <= 31 -> countN (r_pps r) <= 255 ->
+  Forall (fun n => (nref n < 4 /\ ntype n < 32) /\ 1 + lenN (ndata n) <= 65535) (r_sps r) ->
+  Forall (fun n => (nref n < 4 /\ ntype n < 32) /\ 1 + lenN (ndata n) <= 65535) (r_pps r) ->
+  rec_unmarshal rec0 (rec_marshal r) = (r, Ok tt).
+Proof.
+  intros. rewrite <- (app_nil_r (rec_marshal r)). rewrite rec_rt by (try assumption; lia).
+  destruct r; reflexivity.
+Qed.
+
+(* ISO reader: a record written by the independent writer -- parameter sets any non-empty
+   byte strings of at most 65535 bytes -- followed by any bytes (e.g. the High-profile
+   extension fields of the 2012 edition, which the library ignores) is read back to the same
+   values: each parameter set as (bits 6..5, bits 4..0, rest) of its bytes. *)
+Theorem c12_iso_read st ver prof compat level lsm1 (sps pps : list bytes) ext :
+  ver < 256 -> prof < 256 -> compat < 256 -> level < 256 -> lsm1 < 4 -> countN sps <= 31 -> countN pps <= 255 ->
+  Forall (fun nb => nb <> [] /\ lenN nb <= 65535) sps -> Forall (fun nb => nb <> [] /\ lenN nb <= 65535) pps ->
+  rec_unmarshal st (spec_record ver prof compat level lsm1 sps pps ++ ext) =
+  (mk_rec ver prof compat level lsm1 (r_sps st ++ map split_nalu sps) (r_pps st ++ map split_nalu pps), Ok tt).
+Proof.
+  intros Hv Hp Hc Hl Hs Hns Hnp Fs Fp.
+  apply rec_read_spec; try assumption; lia.
+Qed.
+
+(* Canonical re-encoding: unmarshalling a canonical encoding (written by the ISO writer, every
+   NAL unit with forbidden_zero_bit 0) and marshalling the result reproduces it (trailing
+   bytes after the record are not part of it and are dropped). *)
+Theorem c12_canonical_reenc ver prof compat level lsm1 (sps pps : list bytes) ext r :
+  ver < 256 -> prof < 256 -> compat < 256 -> level < 256 -> lsm1 < 4 -> countN sps <= 31 -> countN pps <= 255 ->
+  Forall (fun nb => exists x t, nb = x :: t /\ x < 128 /\ lenN nb <= 65535) sps ->
+  Forall (fun nb => exists x t, nb = x :: t /\ x < 128 /\ lenN nb <= 65535) pps ->
+  rec_unmarshal rec0 (spec_record ver prof compat level lsm1 sps pps ++ ext) = (r, Ok tt) ->
+  rec_marshal r = spec_record ver prof compat level lsm1 sps pps.
+Proof.
+  intros Hv Hp Hc Hl Hs Hns Hnp Fs Fp E.
+  apply (rec_canonical_reenc ver prof compat level lsm1 sps pps ext r); try assumption; lia.
+Qed.
+
+(* Totality: no byte string makes a reader panic, for any receiver state and -- for the sample
+   reader -- any length size 1..256 (lsm1 any uint8; cd951da); the sample loop's fuel is never
+   the reason for stopping. *)
+Theorem avc_nalu_dec_total data s : nalu_unmarshal data <> Panic s.
+Proof. exact (nalu_total data s). Qed.
+Theorem avc_record_dec_total st data s : snd (rec_unmarshal st data) <> Panic s.
+Proof. exact (rec_unmarshal_total st data s). Qed.
+Theorem avc_sample_dec_total lsm1 have data s : snd (sample_unmarshal lsm1 have data) <> Panic s.
+Proof. unfold sample_unmarshal. apply sample_loop_total. Qed.
+Theorem avc_sample_dec_fuel lsm1 have data : snd (sample_unmarshal lsm1 have data) <> Err 100.
+Proof. unfold sample_unmarshal. apply sample_loop_fuel; [unfold u8; lia|lia]. Qed.
+
+(* the generated bodies of the enum String helpers return a string for every integer *)
+Theorem avc_enum_strings_total v :
+  (exists s, avc_NALUType_String v = Ok s) /\ (exists s, avc_AVCProfile_String v = Ok s) /\
+  (exists s, avc_AVCLevel_String v = Ok s).
+Proof. split; [apply nalutype_string_total|split; [apply avcprofile_string_total|apply avclevel_string_total]]. Qed.
+
+(* ---- non-vacuity and regression witnesses ---- *)
+(* the record of DESIGN.md section 5 item 15: bytes 4,5 are ff e1 (were 03 01 before 44286ef) *)
+Example c12_reserved_bits_witness :
+  rec_marshal (mk_rec 1 100 0 31 3 [mk_nalu 3 7 [1; 2]] []) = [1; 100; 0; 31; 255; 225; 0; 3; 103; 1; 2; 0] /\
+  rec_unmarshal rec0 [1; 100; 0; 31; 255; 225; 0; 3; 103; 1; 2; 0] = (mk_rec 1 100 0 31 3 [mk_nalu 3 7 [1; 2]] [], Ok tt) /\
+  rec_unmarshal rec0 [1; 100; 0; 31; 3; 1; 0; 3; 103; 1; 2; 0] = (mk_rec 1 100 0 31 3 [mk_nalu 3 7 [1; 2]] [], Ok tt).
+Proof. vm_compute. repeat split; reflexivity. Qed.
+
+Example c12_sample_nonvacuous :
+  sample_marshal 1 [mk_nalu 3 5 [9]; mk_nalu 0 6 []] = [0; 2; 101; 9; 0; 1; 6] /\
+  sample_unmarshal 1 [] [0; 2; 101; 9; 0; 1; 6] = ([mk_nalu 3 5 [9]; mk_nalu 0 6 []], Ok tt) /\
+  snd (sample_unmarshal 7 [] [128; 0; 0; 0; 0; 0; 0; 0; 1]) = Err 9.
+Proof. vm_compute. repeat split; reflexivity. Qed.
+
+Example c12_appends_nonvacuous :
+  rec_unmarshal (mk_rec 1 66 0 30 3 [mk_nalu 3 7 [5]] [mk_nalu 3 8 [6]]) [1; 77; 0; 40; 253; 225; 0; 1; 103; 1; 0; 1; 104] =
+  (mk_rec 1 77 0 40 1 [mk_nalu 3 7 [5]; mk_nalu 3 7 []] [mk_nalu 3 8 [6]; mk_nalu 3 8 []], Ok tt).
+Proof. vm_compute. reflexivity. Qed.
+
+(* the bounds of the property are sharp: a 32nd SPS, a 65536-byte parameter set, or a NAL unit of
+   256 bytes under a 1-byte length field do not round-trip (counters and lengths wrap) *)
+Example c12_bounds_sharp :
+  let n := mk_nalu 3 7 [] in
+  fst (rec_unmarshal rec0 (rec_marshal (mk_rec 1 66 0 30 3 (repeat n 32) []))) <> mk_rec 1 66 0 30 3 (repeat n 32) [] /\
+  sample_unmarshal 0 [] (sample_marshal 0 [mk_nalu 3 5 (repeat 0 255)]) <> ([mk_nalu 3 5 (repeat 0 255)], Ok tt).
+Proof. vm_compute. split; discriminate. Qed.
+
+Print Assumptions c12_nalu.
+Print Assumptions c12_sample_canonical_reenc.
+Print Assumptions c12_nalu_size.
+Print Assumptions c12_bounds_sharp.
+Print Assumptions c12_nalu_empty.
+Print Assumptions c12_nalu_rt.
+Print Assumptions c12_sample_rt.
+Print Assumptions c12_sample_iso_read.
+Print Assumptions c12_iso_layout.
+Print Assumptions c12_iso_layout_head.
+Print Assumptions c12_unmarshal_appends.
+Print Assumptions c12_record_rt.
+Print Assumptions c12_iso_read.
+Print Assumptions c12_canonical_reenc.
+Print Assumptions avc_nalu_dec_total.
+Print Assumptions avc_record_dec_total.
+Print Assumptions avc_sample_dec_total.
+Print Assumptions avc_sample_dec_fuel.
+Print Assumptions avc_enum_strings_total.
+Print Assumptions c12_reserved_bits_witness.
+Print Assumptions c12_sample_nonvacuous.
+Print Assumptions c12_appends_nonvacuous.
